@@ -415,6 +415,9 @@ fn cmd_check(a: &Args) -> i32 {
     if let Some(fs) = fuzz_stats {
         cov.push(("fuzzing", fs));
     }
+    if let Some(ms) = a.opts.get("miri-stats").and_then(|p| std::fs::read_to_string(p).ok()).and_then(|t| json::parse(&t)) {
+        cov.push(("miri", ms));
+    }
     cov.push(("known_finding_hits", J::Obj(known.iter().map(|(k, v)| (k.clone(), J::Int(*v as i64))).collect())));
     cov.push(("notes", J::Arr(env.notes.iter().map(|n| J::s(n.clone())).collect())));
     let ev = J::obj(vec![
